@@ -274,7 +274,15 @@ def _worker_job(key, job, roots, max_paths, deadline, seed, validate_cap, split_
                     return
                 n_obs = plain_obs(n_obs)
                 n_obl = [(nm, bool(ob)) for nm, ob in n_obl]
-                if shadow_obs != n_obs or shadow_obl != n_obl:
+                native_false = [nm for nm, ob in n_obl if not ob]
+                if native_false and (shadow_obs != n_obs or shadow_obl != n_obl):
+                    # the real code, run natively on this path's model, breaks an obligation that the shadow
+                    # run did not see breaking (e.g. the interpreter's recursion limit): a concrete, already
+                    # reproduced failing input — reported as such, and counted as a modelling gap
+                    for nm in native_false:
+                        res["cex"].append(dict(obligation=nm, inputs=vals, trail=[], found_by="native validation of the path's model"))
+                    res["native_only_failures"] = res.get("native_only_failures", 0) + 1
+                elif shadow_obs != n_obs or shadow_obl != n_obl:
                     res["validation_errors"].append(
                         dict(what="shadow run and native run disagree", inputs=vals, shadow=[shadow_obs, shadow_obl], native=[n_obs, n_obl])
                     )
